@@ -53,6 +53,13 @@ class Analysis:
                 o[k_] = v_
         I = interp.Interp(self.prog, o)
         args = specs.build_args(variant, d, label=label)
+        import re as _re
+        docs = fn.doc_args() or {}
+        for pname, v in args.items():
+            ty = (docs.get(pname) or ('', ''))[0]
+            if _re.search(r'\bfloat\b', ty) and not _re.search(r'\bint\b', ty) \
+                    and (v.k == 'float' or (v.k == 'arr' and v.dt == 'f')):
+                v.doc = 'float:' + pname
         self_ = None
         if fn.cls is not None and fn.name != '__init__':
             self_ = None
